@@ -463,6 +463,27 @@ Definition c05_history (toks : list (list N)) : list (list N) :=
   | _ => REJECT_TOK
   end.
 
+(* C04 at the real listener: the composite front-door model on the harness's endpoint (one main host "localhost",
+   HTTP/1.1 and HTTP/2 enabled), a ClientHello for that host offering http/1.1.
+   in: the rule tokens of c04_eval, then [has random] peer random.  out: [refused; refused]  (1 = the handshake is not answered) *)
+From TT Require Import Model.FrontDoor.
+Definition c04_front (toks : list (list N)) : list (list N) :=
+  match toks with
+  | [n; _] :: rest =>
+    match c04_rules (N.to_nat n) rest with
+    | (rules, [has] :: peer :: tl) =>
+      let cr := if has =? 1 then Some (match tl with c :: _ => c | [] => [] end) else None in
+      let name := [108; 111; 99; 97; 108; 104; 111; 115; 116] in
+      let c := c05_config [1; 1; 0; 0] (9 :: name) [] [] [] [] in
+      let h := {| h_sni := Some name; h_alpn := [[104; 116; 116; 112; 47; 49; 46; 49]]; h_random := cr |} in
+      let r := if answered_handshake (front_tcp RULES_ON_CANONICAL_PEER RULES_DENY_DROPS RULES_BEFORE_TLS_ACCEPT
+                                                rules c (addr_of_bytes peer) h) then 0 else 1 in
+      [[r; r]]
+    | _ => REJECT_TOK
+    end
+  | _ => REJECT_TOK
+  end.
+
 (* ---------------- C13 ---------------- *)
 From TT Require Import Model.Settings.
 
